@@ -90,6 +90,13 @@ impl Limit {
         ensures r == self.inner, self.within_cap() ==> vec_cap(&r) == self.cap0@
     { unimplemented!() }
 
+    // bytes::buf::Limit::get_mut: the underlying vector, by mutable reference; writes through it bypass the limit (not used by the
+    // unchanged source outside the hoisted H2/H3 expressions; declared so that a changed body calling it stays within reach)
+    #[verifier::external_body]
+    fn get_mut(&mut self) -> (r: &mut Vec<u8>)
+        ensures *r == old(self).inner, final(self).inner == *final(r), final(self).limit == old(self).limit, final(self).cap0 == old(self).cap0
+    { unimplemented!() }
+
     // bytes::buf::Limit::{limit, set_limit}: read / overwrite the number of bytes that may still be written
     #[verifier::external_body]
     fn limit(&self) -> (r: usize)
